@@ -522,5 +522,106 @@ func orderScenarios(tier string) []*Scenario {
 		o := &list[i]
 		out = append(out, &Scenario{Name: o.name, Body: o.body, Check: o.check, Horizon: 200000})
 	}
+	// several connections at once: every connection gets its own replies, byte for byte, whatever
+	// the other connections' goroutines do in between (anything shared on the reply path - a
+	// recycled buffer, a common scratch area - shows as foreign bytes in a reply)
+	a40, b300, c7 := strings.Repeat("a", 40), strings.Repeat("b", 300), strings.Repeat("c", 7)
+	cross := []crossScenario{
+		{"cross/ECHO40||ECHO300", [][][]string{{{"ECHO", a40}}, {{"ECHO", b300}}}},
+		{"cross/GET+PING||ECHO+GET", [][][]string{{{"GET", "ka"}, {"PING"}}, {{"ECHO", c7}, {"GET", "kb"}}}},
+		{"cross/error||LRANGE", [][][]string{{{"NOSUCH", a40}}, {{"LRANGE", "kl", "0", "-1"}}}},
+	}
+	if tier == "thorough" {
+		cross = append(cross,
+			crossScenario{"cross/HGETALL||SMEMBERS||GET", [][][]string{{{"HGETALL", "kh"}}, {{"SMEMBERS", "kz"}}, {{"GET", "kb"}}}}, // three connections: one preemption less
+			crossScenario{"cross/ECHOx2||ECHOx2", [][][]string{{{"ECHO", a40}, {"ECHO", c7}}, {{"ECHO", b300}, {"ECHO", a40}}}})
+	}
+	for i := range cross {
+		o := &cross[i]
+		delta := 0
+		if len(o.conns) > 2 {
+			delta = -1
+		}
+		// preemption-bounded, not reduced: the reduction treats steps on different synchronisation objects as
+		// commuting, which is exactly what a buffer shared behind the program's back does not do
+		out = append(out, &Scenario{Name: o.name, Body: o.body, Check: o.check, Horizon: 400000, BoundedOnly: true, BoundDelta: delta})
+	}
 	return out
+}
+
+type crossScenario struct {
+	name  string
+	conns [][][]string // per connection: its pipeline
+}
+
+var crossSetup = [][]string{{"SET", "ka", strings.Repeat("A", 90)}, {"SET", "kb", strings.Repeat("B", 11)}, {"RPUSH", "kl", "l1", "l22", "l333"}, {"HSET", "kh", "f", "1"}, {"SADD", "kz", "only"}}
+
+func (cs *crossScenario) body(x *Exec) {
+	vnet.ResetNet()
+	verifrt.SetSerial(true)
+	vi := redisemu.VNew("")
+	setup := vi.NewClient()
+	for _, c := range crossSetup {
+		setup.Do(c...)
+	}
+	var clis []*vnet.MemConn
+	for i := range cs.conns {
+		srv, cli := vnet.Pipe("127.0.0.1:6379", fmt.Sprintf("127.0.0.1:%d", 40001+i))
+		vi.NewCxn(srv)
+		clis = append(clis, cli)
+	}
+	verifrt.AwaitQuiescence()
+	verifrt.SetSerial(false)
+	for i, cli := range clis {
+		var stream []byte
+		for _, c := range cs.conns[i] {
+			stream = append(stream, vm.Encode(c...)...)
+		}
+		cli.Write(stream)
+	}
+	verifrt.AwaitQuiescence()
+	verifrt.SetSerial(true)
+	var outs [][]byte
+	var sum string
+	buf := make([]byte, 1<<20)
+	for _, cli := range clis {
+		var out []byte
+		for cli.Pending() > 0 {
+			n, _ := cli.Read(buf)
+			out = append(out, buf[:n]...)
+		}
+		outs = append(outs, out)
+		sum += shortHash(string(out)) + " "
+	}
+	x.Extra["outs"] = outs
+	x.Final = sum
+}
+
+func (cs *crossScenario) check(x *Exec) [][2]string {
+	outs, _ := x.Extra["outs"].([][]byte)
+	if len(outs) != len(cs.conns) {
+		return [][2]string{{"scenario-did-not-finish", "the connections were not read"}}
+	}
+	for i, out := range outs {
+		replies, err := vm.ParseAll(out)
+		if err != nil {
+			return [][2]string{{"reply-stream-malformed|several-connections", fmt.Sprintf("connection %d of %d, pipeline %v: reply stream %q: %v", i+1, len(outs), pipelineNames(cs.conns[i]), clipB(out), err)}}
+		}
+		if len(replies) != len(cs.conns[i]) {
+			return [][2]string{{"reply-count|several-connections", fmt.Sprintf("connection %d of %d: %d commands, %d replies: %q", i+1, len(outs), len(cs.conns[i]), len(replies), clipB(out))}}
+		}
+		// the commands only read what the set-up wrote: the expected replies do not depend on the others
+		model := vm.NewModel(epochMs)
+		model.NewSession()
+		for _, c := range crossSetup {
+			model.Exec(0, c)
+		}
+		for j, c := range cs.conns[i] {
+			want := model.Exec(0, c)
+			if ok, why := vm.Match(want, replies[j]); !ok {
+				return [][2]string{{"foreign-reply|several-connections", fmt.Sprintf("connection %d of %d: reply %d does not answer %v: %s (reply stream %q)", i+1, len(outs), j, clipArgs(c), why, clipB(out))}}
+			}
+		}
+	}
+	return nil
 }
